@@ -42,18 +42,28 @@ func (i *interpreter) watchFieldSlow(fr *frame, instr *ssa.FieldAddr) {
 	if !ok {
 		return
 	}
-	lockIdx := -1
-	for k := 0; k < st.NumFields(); k++ {
-		if st.Field(k).Name() == lockName {
-			lockIdx = k
+	mode := 0
+	if lockName == "*" {
+		// any lock held by the current goroutine (the lock lives in another object)
+		for k, m := range c.held {
+			if k.g == i.sched.cur.id && m > mode {
+				mode = m
+			}
 		}
+	} else {
+		lockIdx := -1
+		for k := 0; k < st.NumFields(); k++ {
+			if st.Field(k).Name() == lockName {
+				lockIdx = k
+			}
+		}
+		if lockIdx < 0 {
+			return
+		}
+		sv := (*fr.get(instr.X).(*value)).(structure)
+		lockAddr := &sv[lockIdx]
+		mode = c.held[heldKey{i.sched.cur.id, lockAddr}]
 	}
-	if lockIdx < 0 {
-		return
-	}
-	sv := (*fr.get(instr.X).(*value)).(structure)
-	lockAddr := &sv[lockIdx]
-	mode := c.held[heldKey{i.sched.cur.id, lockAddr}]
 	write := false
 	if refs := instr.Referrers(); refs != nil {
 		for _, r := range *refs {
